@@ -13,6 +13,18 @@ CHECKS = {
          "Sessions of 1-8 top-level forms from a typed, scope-aware generator covering every core and derived form of the statement in combination are evaluated by an independent reference interpreter (CEK machine written from R7RS, hygienic desugaring) and by three VM instances; values, failures and output order are compared form by form with a strict structural equality. Exploration: 24k sessions quick / 400k thorough, shrunk to a minimal program on failure.",
          "Trusts the reference interpreter (unit-tested, shares no code with the SUT); only left-to-right operand order is assumed; failure messages are not compared; programs never rebind standard names; known deviations are matched by syntactic signature and generated at probe rate only.",
          "DESIGN.md section 4, C01"),
+ "C02": ("exhaustive enumeration of scope skeletons (odometer over the decoder's decision tree) + proptest-driven random skeletons beyond the bound, differential against the reference interpreter's environment model",
+         "Every scope skeleton up to the bound (quick: <=3 nested procedures x 2 names x 3 binding modes x 4 read/write/call placement patterns = 47,988 programs; thorough: 3 names x 4 modes) is run on the VM and on the reference interpreter and the complete probe log is compared; random skeletons with 4 levels, 3 names and 5 modes (incl. rest parameters and let) are sampled beyond it, plus 8 fixed families (closures created in loops, getter/setter pairs, shared counters).",
+         "The reference interpreter's environment model defines the property. One VM is reused for up to 100 skeletons; mismatches are confirmed in a fresh VM.",
+         "DESIGN.md section 4, C02"),
+ "C05": ("differential against a reference interpreter with persistent multi-shot continuations over proptest-driven typed program generation with call/cc productions",
+         "Sessions with call/cc at operand, tail and nested positions; continuations escape, return normally, are stored in globals and re-entered 0-3 times (counter-guarded) from the same form, from procedures, loops, for-each callbacks and later top-level forms. Values, failures and output are compared form by form with the reference interpreter in three VMs.",
+         "Trusts the reference interpreter's continuation model (REPL semantics for the bottom frame, pinned by the suite). Continuations receive exactly one value; map callbacks neither capture nor invoke continuations.",
+         "DESIGN.md section 4, C05"),
+ "C13": ("differential (uninterrupted vs sliced run of the same build) over generated sessions x generated budget sequences, with progress invariants from the instruction-counter hook",
+         "Each generated session (call/cc productions on) is run uninterrupted in one VM and with prepare_eval + run_count(b_i) in another, for constant budgets 1..64 and random log-uniform budget sequences in 1..10^4; per-form value/failure/output and the final value of every session global must agree, every slice must stay within its budget, and the number of resumes is bounded by the uninterrupted instruction count. Constant budgets 1..64 are swept exhaustively over 8 fixed programs.",
+         "The uninterrupted run is the reference (its own correctness is C01/C05's business); programs are first screened by the reference interpreter so that diverging programs are excluded.",
+         "DESIGN.md section 4, C13"),
  "C20": ("exhaustive enumeration over a lexeme alphabet + proptest-driven Unicode token soup against a reference bracket matcher",
          "Every string of <=5 (quick) / <=7 (thorough) lexemes over the 11-lexeme alphabet with every cursor position is checked against the harness' own tokenizer and partner search (finite space enumerated completely), plus random Unicode token soup with random cursors. Exploration: holds on everything enumerated/generated, nothing beyond.",
          "Trusts the harness' reference tokenizer/partner search; random texts use the SUT scanner for token spans (checked by C11).",
